@@ -1339,6 +1339,12 @@ class Extractor:
                 rhs = self.new_input(dn, st)
             st.instrs.append(f'IInplace {BINOPS[type(s.op)]} {base[1]} {self.operand(rhs, s.value, st)}')
             return [(st, 'fall')]
+        if rhs[0] == 'var' and base[0] == 'py' and not isinstance(tgt, ast.Subscript) and type(s.op) in BINOPS:
+            # a Python scalar is immutable: `acc += x` is `acc = acc + x`, a new (numpy) scalar
+            v = st.fresh()
+            st.instrs.append(f'IBin {v} {BINOPS[type(s.op)]} {self.operand(base, tgt, st)} (OVar {rhs[1]})')
+            st.env[dotted(tgt)] = ('var', v)
+            return [(st, 'fall')]
         if rhs[0] in ('var', 'list'):
             if base[0] == 'arr' and base[1] in ('DF32', 'DF64'):
                 return [(st, 'fall')]          # accumulating into a known float array
@@ -1578,6 +1584,12 @@ REFUSED = [
          reason='pinned-rejected: cutouts - sky where sky has the dtype the reduction of the cutouts produced '
                 '(float32 - float32 for float32 images)'),
 ]
+REFUSED.append(dict(
+    name='_MeanIntegrator.accumulate', file='photutils/isophote/integrator.py', func='_MeanIntegrator.accumulate',
+    inputs=['pixel_value'], known={'accumulator': ('py', 'float', 0.0)}, opaque=[],
+    reason='pinned-rejected: the sector sum starts at the Python float 0.0 (initialize_accumulator), so an integer pixel '
+           'is accumulated in float64 but a float32 pixel in float32 (weak scalar); the isophote entry of the product '
+           'test compares the mean integrator for every representation'))
 NOT_ATTEMPTED = {
     'Background2D._compute_box_statistics / background estimator classes / LocalBackground.__call__':
         'the arithmetic is inside astropy SigmaClip, numpy/bottleneck reductions and the estimator objects '
@@ -1585,7 +1597,8 @@ NOT_ATTEMPTED = {
     '_detect_sources / SegmentationImage': 'only comparisons with the data; label arithmetic is on scipy label arrays',
     'DAOStarFinder/IRAFStarFinder/StarFinder._get_raw_catalog': 'kernel arithmetic only; the data go to _filter_data '
         '(obligation) and find_peaks (obligation)',
-    'isophote (Ellipse, EllipseSample)': 'pixel sampling in Python loops with scalar arithmetic and iterative fits',
+    'isophote sampling other than _MeanIntegrator.accumulate': 'pixel sampling in Python loops with scalar '
+        'arithmetic (math module) and iterative fits',
     'PSFPhotometry._fit_sources, fit_2dgaussian, fit_fwhm': 'astropy fitters on the cutouts',
     'RadialProfile/CurveOfGrowth.profile, profile_error': 'arithmetic on the float64 outputs of do_photometry '
         '(obligation), not on caller arrays',
@@ -1631,17 +1644,21 @@ def make_galaxy(rng, n=41):
     xr = dx * math.cos(pa) + dy * math.sin(pa)
     yr = -dx * math.sin(pa) + dy * math.cos(pa)
     r = np.sqrt(xr ** 2 + (yr / (1 - eps)) ** 2)
-    img = np.rint(2000 * np.exp(-r / 5.0) + 10)
+    img = np.rint(30000 * np.exp(-r / 16.0) + 10)    # <= 30010: fits int16; eight pixels at sma 15 (~11700 each)
+    # sum to more than 65535
     return img, (x0, y0, eps, pa)
 
 
-REPS_QUICK = ['f4', 'i2', 'i8', 'u2', 'be_f8', 'fortran', 'strided', 'ma_nomask', 'ma_false', 'nddata', 'quantity']
+REPS_QUICK = ['f4', 'i2', 'i8', 'u2', 'be_f8', 'fortran', 'strided', 'ma_nomask', 'ma_false', 'nddata', 'nddata_q',
+              'quantity']
+ND_REPS = ('nddata', 'nddata_q')
+UNIT_REPS = ('quantity', 'nddata_q')
 REPS_ALL = ['f4', 'i2', 'i8', 'u2', 'i4', 'be_f8', 'be_f4', 'be_i4', 'be_i2', 'fortran', 'strided', 'negstride',
-            'ma_nomask', 'ma_false', 'nddata', 'quantity']
+            'ma_nomask', 'ma_false', 'nddata', 'nddata_q', 'quantity']
 REP_CLASS = {'f4': 'float32', 'be_f4': 'float32', 'i2': 'integer', 'i8': 'integer', 'u2': 'integer',
              'i4': 'integer', 'be_i4': 'integer', 'be_i2': 'integer', 'be_f8': 'big-endian', 'fortran': 'fortran',
              'strided': 'strided', 'negstride': 'strided', 'ma_nomask': 'masked-array', 'ma_false': 'masked-array',
-             'nddata': 'nddata', 'quantity': 'quantity'}
+             'nddata': 'nddata', 'nddata_q': 'nddata-unit', 'quantity': 'quantity'}
 TOL = {'float32': 'f32', 'integer': 'f32'}        # every other class: 'ulp'
 
 
@@ -1701,8 +1718,9 @@ class Rep:
         self.scale = scale            # a power of two: the scaled values stay exactly representable
         img, err, gal = img * scale, err * scale, gal * scale
         self.raw, self.rawerr, self.rawgal = img, err, gal
-        self.unit = UNIT if rep == 'quantity' else None
-        if rep == 'nddata':
+        self.unit = UNIT if rep in UNIT_REPS else None
+        self.is_nd = rep in ND_REPS
+        if self.is_nd:
             self.data = self.error = self.gal = None
         else:
             self.data = convert(img, rep)
@@ -1712,7 +1730,7 @@ class Rep:
     def nd(self, with_error=True, mask=None):
         """NDData container of the star scene (only for entry points documented to take one)."""
         unc = StdDevUncertainty(self.rawerr.copy()) if with_error else None
-        return NDData(self.raw.copy(), uncertainty=unc, mask=None if mask is None else mask.copy())
+        return NDData(self.raw.copy(), uncertainty=unc, mask=None if mask is None else mask.copy(), unit=self.unit)
 
     def q(self, x):
         """a data-like scalar/array argument (threshold, background level) in the unit of the data"""
@@ -1773,7 +1791,7 @@ def ep_aperture_photometry(S):
                                  (o['method'], o['subpixels'], True), ('subpixel', 2, True)):
         mask = S.mask if usemask else None
         key = f'{method}/{sub}/{"mask" if usemask else "nomask"}:'
-        if S.rep == 'nddata':
+        if S.is_nd:
             t = aperture_photometry(S.nd(mask=mask), _apers(S), method=method, subpixels=sub)
         else:
             t = aperture_photometry(S.data, _apers(S), error=S.error, mask=mask, method=method, subpixels=sub)
@@ -1800,8 +1818,8 @@ def ep_aperture_stats(S):
                                            (None, {'sum_method': o['method'], 'subpixels': o['subpixels']}, True))):
         ap = aps[k]
         mask = S.mask if usemask else None
-        if S.rep == 'nddata':
-            st = ApertureStats(S.nd(mask=mask), ap, sigma_clip=sc, local_bkg=np.full(len(ap), 3.0), **kw)
+        if S.is_nd:
+            st = ApertureStats(S.nd(mask=mask), ap, sigma_clip=sc, local_bkg=S.q(np.full(len(ap), 3.0)), **kw)
         else:
             st = ApertureStats(S.data, ap, error=S.error, mask=mask, sigma_clip=sc,
                                local_bkg=S.q(np.full(len(ap), 3.0)), **kw)
@@ -1819,17 +1837,41 @@ ep_aperture_stats.nddata = 'nolocalbkg'
 
 
 def ep_background2d(S):
+    """estimator/box/filter variants, then every optional argument of the output path: coverage_mask x fill_value x
+    mask x filter_size x exclude_percentile x interpolator, through every container"""
     from astropy.stats import SigmaClip
-    from photutils.background import Background2D, MedianBackground, SExtractorBackground
+    from photutils.background import (Background2D, BkgIDWInterpolator, BkgZoomInterpolator, MedianBackground,
+                                      SExtractorBackground)
     out = {}
+
+    def put(key, b):
+        out[key + 'background'] = _try(lambda: b.background)
+        out[key + 'background_rms'] = _try(lambda: b.background_rms)
+        out[key + 'background_median'] = _try(lambda: b.background_median)
+        out[key + 'background_rms_median'] = _try(lambda: b.background_rms_median)
+        out[key + 'mesh'] = _try(lambda: b.background_mesh)
+    d = S.nd(False) if S.is_nd else S.data
     for k, (est, bs, fs) in enumerate(((MedianBackground(), (8, 8), 3), (SExtractorBackground(), (11, 9), 1))):
-        d = S.nd(False) if S.rep == 'nddata' else S.data
-        b = Background2D(d, bs, filter_size=fs, sigma_clip=SigmaClip(3.0), bkg_estimator=est)
-        out[f'{k}:background'] = b.background
-        out[f'{k}:background_rms'] = b.background_rms
-        out[f'{k}:background_median'] = b.background_median
-        out[f'{k}:background_rms_median'] = b.background_rms_median
-        out[f'{k}:mesh'] = b.background_mesh
+        put(f'{k}:', Background2D(d, bs, filter_size=fs, sigma_clip=SigmaClip(3.0), bkg_estimator=est))
+    cov = np.zeros(S.raw.shape, bool)
+    cov[:6, :9] = True
+    cov[-3:, -8:] = True
+    k = 0
+    for fill in (0.0, np.nan, -1.0, 7.0):
+        for usemask in (False, True):
+            # the remaining options are rotated instead of fully crossed (4 x 2 x 2 x 2 x 2 = 64 calls otherwise)
+            fs = (1, 3)[k % 2]
+            ep = (10.0, 40.0)[(k // 2) % 2]
+            interp = (BkgZoomInterpolator(), BkgIDWInterpolator())[(k // 4) % 2 if fill == fill else 1]
+            k += 1
+            key = f'cov/fill={fill}/{"mask" if usemask else "nomask"}/fs={fs}/excl={ep}/{type(interp).__name__}:'
+            b = _try(lambda: Background2D(d, (8, 8), coverage_mask=cov, fill_value=fill,
+                                          mask=S.mask if usemask else None, filter_size=fs, exclude_percentile=ep,
+                                          interpolator=interp, sigma_clip=SigmaClip(3.0)))
+            if isinstance(b, Raised):
+                out[key + 'init'] = b
+            else:
+                put(key, b)
     return out
 ep_background2d.units = {'background': 'u', 'background_rms': 'u', 'background_median': 'u',
                          'background_rms_median': 'u', 'mesh': 'u'}
@@ -2124,15 +2166,19 @@ def ep_psf_photometry(S):
     init['x'] = [s[0] + 0.3 for s in S.stars]
     init['y'] = [s[1] - 0.2 for s in S.stars]
     phot = PSFPhotometry(model, (7, 7), aperture_radius=4.0, localbkg_estimator=LocalBackground(6, 10))
-    if S.rep == 'nddata':
+    if S.is_nd:
         res = phot(S.nd(), init_params=init)
     else:
         res = phot(S.data, error=S.error, init_params=init)
     out.update(_tbl(res, ['x_fit', 'y_fit', 'flux_fit', 'fwhm_fit', 'x_err', 'flux_err', 'local_bkg', 'flux_init',
                           'qfit', 'cfit', 'npixfit', 'flags'], prefix='A:'))
     out['A:model_image'] = phot.make_model_image(S.raw.shape, psf_shape=(9, 9))
-    out['A:residual'] = phot.make_residual_image(S.nd().data if S.rep == 'nddata' else S.data, psf_shape=(9, 9))
-    if S.rep != 'nddata':
+    if S.is_nd:                    # an NDData comes back as an NDData
+        res_nd = phot.make_residual_image(S.nd(), psf_shape=(9, 9))
+        out['A:residual'] = res_nd.data * res_nd.unit if res_nd.unit is not None else res_nd.data
+    else:
+        out['A:residual'] = phot.make_residual_image(S.data, psf_shape=(9, 9))
+    if not S.is_nd:
         model2 = CircularGaussianPRF(flux=1, fwhm=4.0)
         phot2 = PSFPhotometry(model2, (5, 5), finder=DAOStarFinder(S.q(40.0), 4.0), aperture_radius=4.0)
         res2 = phot2(S.data)
@@ -2164,7 +2210,7 @@ def ep_make_model_image(S):
     from photutils.datasets import make_model_image
     from photutils.psf import CircularGaussianPRF
     from astropy.table import QTable
-    if S.rep == 'nddata':
+    if S.is_nd:
         return None
     t = QTable()
     xs = np.array([float(round(s[0])) for s in S.stars])
@@ -2213,6 +2259,37 @@ def ep_ellipse(S):
 ep_ellipse.no_units = True
 
 
+def ep_isophote(S):
+    """Ellipse.fit_isophote and EllipseSample.extract for a few semi-major axes and all four integration modes
+    (the area integrators only take over when a sector holds more than 6 pixels, i.e. at the larger sma)"""
+    from photutils.isophote import Ellipse, EllipseGeometry, EllipseSample
+    x0, y0, eps, pa = S.galgeom
+    out = {}
+    for mode in ('bilinear', 'nearest_neighbor', 'mean', 'median'):
+        for sma, astep in ((4.0, 0.1), (12.0, 0.4), (15.0, 0.1)):
+            geom = EllipseGeometry(x0, y0, sma, eps, pa, astep=astep)
+            smp = EllipseSample(S.gal, sma, geometry=geom, integrmode=mode)
+            ex = _try(lambda: smp.extract())
+            key = f'{mode}/sma={sma}:'
+            if isinstance(ex, Raised):
+                for a in ('angles', 'radii', 'intensities', 'mean'):
+                    out[key + a] = ex
+            else:
+                out[key + 'angles'], out[key + 'radii'], out[key + 'intensities'] = ex[0], ex[1], ex[2]
+                out[key + 'mean'] = smp.mean
+            iso = _try(lambda: Ellipse(S.gal, EllipseGeometry(x0, y0, sma, eps - 0.05, pa + 0.1, astep=astep)).fit_isophote(
+                sma, integrmode=mode))
+            for a in ('intens', 'int_err', 'eps', 'pa', 'x0', 'y0', 'rms', 'ndata', 'stop_code', 'tflux_e', 'npix_e'):
+                if isinstance(iso, Raised):
+                    out[key + 'fit_' + a] = iso
+            if not isinstance(iso, Raised):
+                for a in ('intens', 'int_err', 'eps', 'pa', 'x0', 'y0', 'rms', 'ndata', 'stop_code', 'tflux_e',
+                          'npix_e'):
+                    out[key + 'fit_' + a] = np.asarray(getattr(iso, a))
+    return out
+ep_isophote.no_units = True
+
+
 def ep_morphology(S):
     from photutils.morphology import data_properties, gini
     cut, _ = _cut(S)
@@ -2250,6 +2327,7 @@ ENTRY_POINTS = {
     'make_model_image': ep_make_model_image,
     'calc_total_error': ep_calc_total_error,
     'Ellipse': ep_ellipse,
+    'isophote': ep_isophote,
     'morphology': ep_morphology,
     '_filter_data': ep_filter_data,
 }
@@ -2396,7 +2474,7 @@ def mixed_cases(img, err, stars):
 
 
 # ---------------------------------------------------------------- product driver
-QUANTITY_UNSUPPORTED = {'LocalBackground', 'Ellipse'}     # no unit handling documented: a raise is recorded only
+QUANTITY_UNSUPPORTED = {'LocalBackground', 'Ellipse', 'isophote'}     # no unit handling documented: a raise is recorded only
 TARGET_ENTRIES = {
     'calc_total_error': ['calc_total_error'], '_filter_data': ['_filter_data', 'finders'],
     'Background2D._calculate_stats': ['Background2D'],
@@ -2478,7 +2556,7 @@ def reps_for(name, sc, reps):
     f = ENTRY_POINTS[name]
     out = []
     for rep in reps:
-        if rep == 'nddata' and not getattr(f, 'nddata', False):
+        if rep in ND_REPS and not getattr(f, 'nddata', False):
             continue
         if rep == 'u2' and (sc['img'].min() < 0 or sc['gal'].min() < 0):
             continue
@@ -2525,15 +2603,20 @@ def compare_entry(name, rep, ref, got):
             continue                           # the float64 call fails as well: nothing is required
         if k not in got:
             expected = True
-            if rep == 'nddata':       # the NDData variants of some entry points compute a subset
+            if rep in ND_REPS:       # the NDData variants of some entry points compute a subset
                 expected = k.startswith(getattr(f, 'nddata_prefix', ''))
-            if rep == 'quantity' and k in getattr(f, 'not_for_quantity', ()):
+            if rep in UNIT_REPS and k in getattr(f, 'not_for_quantity', ()):
                 expected = False
             if expected:
                 probs.append(('missing', k, 'output missing'))
             continue
         g = got[k]
         if isinstance(g, Raised):
+            if rep in UNIT_REPS and name in QUANTITY_UNSUPPORTED:
+                continue      # no unit handling documented for this entry point
+            if cls == 'integer' and getattr(f, 'int_rounding', False) and (
+                    'fill=nan' in k or ('fill=-1.0' in k and rep in ('u2',))):
+                continue      # Background2D's integer output cannot hold this fill_value (documented integer output)
             probs.append(('raises', k, g.msg))
             continue
         if cls == 'integer' and k.endswith(':dtypes'):
@@ -2545,7 +2628,7 @@ def compare_entry(name, rep, ref, got):
             probs.append(('differs', k, m))
         elif compare(r, g, 'exact') is None:
             exact += 1
-        if rep == 'quantity':
+        if rep in UNIT_REPS:
             base = k.split(':')[-1]
             un = getattr(f, 'units', {})
             exp = getattr(f, 'all_units', None) or un.get(k) or un.get(base) or un.get(base.rstrip('_0123456789'))
@@ -2579,7 +2662,7 @@ def product_one(ctx, sc, name, reps, found):
         if st == 'ok' and got is None:
             continue
         if st != 'ok':
-            if rep == 'quantity' and name in QUANTITY_UNSUPPORTED:
+            if rep in UNIT_REPS and name in QUANTITY_UNSUPPORTED:
                 ctx.stat('product', 'quantity_not_supported_raises:' + name)
                 continue
             probs = [('raises', '*', got)]
@@ -2796,7 +2879,7 @@ def check_annotations(ctx, sc, reps):
     from photutils.segmentation import SourceCatalog, detect_sources
     bad = []
     for rep in reps:
-        if rep in ('nddata',):
+        if rep in ND_REPS:
             continue
         S = mk_rep(rep, sc)
         ap = CircularAperture([(s[0], s[1]) for s in sc['stars']], r=4.0)
@@ -2903,26 +2986,48 @@ def _nd_calls(sc):
     def f_bkg(d, e):
         b = Background2D(d, (8, 8), filter_size=3)
         return {'background': b.background, 'background_rms': b.background_rms}
-    return {'aperture_photometry': f_ap, 'ApertureStats': f_stats, 'PSFPhotometry': f_psf, 'Background2D': f_bkg}
+    def f_ipsf(d, e):
+        from photutils.detection import DAOStarFinder
+        from photutils.psf import IterativePSFPhotometry
+        model = CircularGaussianPRF(flux=1, fwhm=4.0)
+        thr = 40.0 * d.unit if getattr(d, 'unit', None) is not None else 40.0
+        res = IterativePSFPhotometry(model, (7, 7), finder=DAOStarFinder(thr, 4.0), aperture_radius=4.0,
+                                     maxiters=1)(d, error=e, init_params=init.copy())
+        return _tbl(res, ['x_fit', 'flux_fit', 'flux_err'])
+    return {'aperture_photometry': f_ap, 'ApertureStats': f_stats, 'PSFPhotometry': f_psf,
+            'IterativePSFPhotometry': f_ipsf, 'Background2D': f_bkg}
 
 
 ND_VARIANTS = [('Jy', 'absent'), ('Jy', 'none'), ('Jy', 'Jy'), ('Jy', 'mJy'), ('Jy', 's'), ('none', 'Jy'),
                ('none', 'none')]
 
 
-def _nd_variant(sc, dunit, uunit):
-    """(NDData, equivalent data argument, equivalent error argument, error converted to the data unit)"""
+UNC_CLASSES = ('StdDevUncertainty', 'VarianceUncertainty', 'InverseVariance', 'UnknownUncertainty')
+
+
+def _nd_variant(sc, dunit, uunit, ucls='StdDevUncertainty'):
+    """(NDData, equivalent data argument, equivalent sigma argument, sigma converted to the data unit)"""
+    import astropy.nddata as nddata
     units = {'Jy': u.Jy, 'mJy': u.mJy, 's': u.s, 'none': None}
     img, err = sc['img'].copy(), sc['err'].copy()
     du = units[dunit]
     if uunit == 'absent':
         unc = None
-    else:
+    elif ucls == 'StdDevUncertainty':
         unc = StdDevUncertainty(err * (1000.0 if uunit == 'mJy' else 1.0), unit=units[uunit])
+    else:
+        # the same errors as a variance / inverse variance / of unknown kind (only with the unit of the data)
+        arr = {'VarianceUncertainty': err ** 2, 'InverseVariance': 1.0 / err ** 2, 'UnknownUncertainty': err}[ucls]
+        uu = units[uunit]
+        if uu is not None:
+            uu = {'VarianceUncertainty': uu ** 2, 'InverseVariance': uu ** -2, 'UnknownUncertainty': uu}[ucls]
+        unc = getattr(nddata, ucls)(arr, unit=uu)
     nd = NDData(img, unit=du, uncertainty=unc)                  # astropy itself may reject or normalise this
     d = img * du if du is not None else img
     e = econv = None
-    if nd.uncertainty is not None:
+    if nd.uncertainty is not None and ucls != 'StdDevUncertainty':
+        e = econv = err * du if du is not None else err.copy()   # the sigma the container stands for
+    elif nd.uncertainty is not None:
         uu = nd.uncertainty.unit                               # as astropy resolved it
         e = nd.uncertainty.array * uu if uu is not None else nd.uncertainty.array.copy()
         econv = e
@@ -2962,15 +3067,36 @@ def _same_quantities(a, b):
     return None
 
 
-def nddata_unit_case(sc, name, dunit, uunit):
+# entry points whose documentation requires the NDData uncertainty to be a StdDevUncertainty (aperture_photometry:
+# "it must be defined in the uncertainty attribute with a StdDevUncertainty instance"); ApertureStats shares that
+# unpacking code but does not say so
+STDDEV_ONLY_DOCUMENTED = {'aperture_photometry', 'ApertureStats'}
+
+
+def nddata_unit_case(sc, name, dunit, uunit, ucls='StdDevUncertainty'):
     """-> (verdict, message); verdict in ok / not-constructible / VIOLATION"""
     f = _nd_calls(sc)[name]
     try:
-        nd, d, e, econv = _nd_variant(sc, dunit, uunit)
+        nd, d, e, econv = _nd_variant(sc, dunit, uunit, ucls)
     except Exception as ex:  # noqa: BLE001
         return 'not-constructible', type(ex).__name__
     st_nd, r_nd = _call(f, nd, None)
     st_a, r_a = _call(f, d, e)
+    if ucls != 'StdDevUncertainty' and st_a == 'ok':
+        # expected: the call with the equivalent sigma.  A container whose uncertainty cannot be turned into a
+        # sigma (UnknownUncertainty) may be rejected; where the documentation restricts the uncertainty to
+        # StdDevUncertainty the other classes may be ignored (= the call without error)
+        if st_nd != 'ok':
+            return ('ok', 'rejected') if ucls == 'UnknownUncertainty' else (
+                'VIOLATION', f'the NDData call raises ({r_nd}) although its {ucls} is equivalent to a sigma')
+        m = _same_quantities(r_a, r_nd)
+        if m is None:
+            return 'ok', 'as sigma'
+        if name in STDDEV_ONLY_DOCUMENTED:
+            st_n, r_n = _call(f, d, None)
+            if st_n == 'ok' and _same_quantities({k: v for k, v in r_n.items() if k in r_nd}, r_nd) is None:
+                return 'ok', 'uncertainty class ignored'
+        return 'VIOLATION', f'NDData with {ucls} is accepted but the result is not the one for the equivalent sigma: ' + m
     if st_a == 'ok':
         if st_nd != 'ok':
             return 'VIOLATION', f'the NDData call raises ({r_nd}) although the call with the same Quantities succeeds'
@@ -2993,18 +3119,23 @@ def nddata_unit_case(sc, name, dunit, uunit):
 
 def run_nddata_units(ctx, sc):
     for name in _nd_calls(sc):
-        for dunit, uunit in ND_VARIANTS:
+        variants = [(d, uu, 'StdDevUncertainty') for d, uu in ND_VARIANTS]
+        variants += [(d, d, c) for c in UNC_CLASSES[1:] for d in ('none', 'Jy')]
+        for dunit, uunit, ucls in variants:
             if name == 'Background2D' and uunit != 'absent':
                 continue
-            verdict, msg = nddata_unit_case(sc, name, dunit, uunit)
-            ctx.count_case(['ndunits', name, dunit, uunit, sc['stars']])
+            verdict, msg = nddata_unit_case(sc, name, dunit, uunit, ucls)
+            ctx.count_case(['ndunits', name, dunit, uunit, ucls, sc['stars']])
             ctx.support('nddata_unit_variants', 1)
-            ctx.stat('nddata_units', f'{verdict}{":" + msg if msg in ("both rejected", "converted") else ""}')
+            ctx.stat('nddata_units', f'{verdict}{":" + msg if verdict == "ok" and msg else ""}')
+            if msg == 'uncertainty class ignored':
+                ctx.stat('nddata_units_observed', f'{name}: {ucls} silently ignored')
             if verdict == 'VIOLATION':
-                ctx.violation(f'{name}:nddata-units:data={dunit},uncertainty={uunit}',
-                              f'{name}: NDData(data unit {dunit}, uncertainty unit {uunit}): {msg}',
+                ctx.violation(f'{name}:nddata-units:data={dunit},uncertainty={uunit},{ucls}',
+                              f'{name}: NDData(data unit {dunit}, {ucls} unit {uunit}): {msg}',
                               {'kind': 'ndunits', 'entry': name, 'data_unit': dunit, 'uncertainty_unit': uunit,
-                               'scene': scene_json(sc), 'cmd': 'bin/check C15 --replay <this file>'})
+                               'uncertainty_class': ucls, 'scene': scene_json(sc),
+                               'cmd': 'bin/check C15 --replay <this file>'})
 
 
 # ---------------------------------------------------------------- obligations
@@ -3193,7 +3324,7 @@ def run(ctx):
                 continue
             product_one(ctx, sc, name, reps, found)
         run_mixed(ctx, sc) if k < 2 else None
-    check_annotations(ctx, scenes[0], [r for r in reps if r != 'nddata'])
+    check_annotations(ctx, scenes[0], [r for r in reps if r not in ND_REPS])
     # ---- float32 exactness on a bright scene (pixel values < 2**24, sums far above 2**24)
     for sc in scenes[:1 if quick else 3]:
         for name in sorted(FLOAT32_EXACT):
@@ -3276,7 +3407,8 @@ def replay(obj):
         ok = verdict != 'VIOLATION'
     elif kind == 'ndunits':
         sc = scene_from_json(r['scene'])
-        verdict, msg = nddata_unit_case(sc, r['entry'], r['data_unit'], r['uncertainty_unit'])
+        verdict, msg = nddata_unit_case(sc, r['entry'], r['data_unit'], r['uncertainty_unit'],
+                                        r.get('uncertainty_class', 'StdDevUncertainty'))
         print(r['entry'], r['data_unit'], r['uncertainty_unit'], '->', verdict, msg)
         ok = verdict != 'VIOLATION'
     elif kind == 'product':
